@@ -289,7 +289,7 @@ def noise_gauss(a: Union[np.ndarray, List], snr=None, snr_in_db=True, std=1.0):
             snr = np.asarray(snr)
         sp = np.mean(np.asarray(a, dtype=np.float64) ** 2)  # signal power
 
-        if snr_in_db is True:
+        if isinstance(snr_in_db, (bool, np.bool_)) and snr_in_db:
             std_n = (sp / (10 ** (snr / 10))) ** 0.5
         else:
             std_n = (sp / snr) ** 0.5  # getting noise std from SNR definition
